@@ -178,7 +178,10 @@ pub fn parse_header(header: &str, config: &Config) -> Result<String> {
             },
         )| {
             match (clone_impl, drop_impl) {
-                (Some(impl_clone), Some(impl_drop)) => {
+                // Only emit the helpers if the type is actually declared in the header.
+                (Some(impl_clone), Some(impl_drop))
+                    if header.contains(&format!("typedef struct {} {{", ty)) =>
+                {
                     Some((ty, ty_prefix.to_lowercase(), impl_clone, impl_drop))
                 }
                 _ => None,
@@ -211,7 +214,11 @@ static inline void ctx_{prefix}_drop({ty} *self) {{
                 drop_impl,
                 ..
             },
-        )| drop_impl.map(|impl_drop| (ty, ty_prefix.to_lowercase(), impl_drop)),
+        )| {
+            drop_impl
+                .filter(|_| header.contains(&format!("typedef struct {} {{", ty)))
+                .map(|impl_drop| (ty, ty_prefix.to_lowercase(), impl_drop))
+        },
     ) {
         all_wrappers += &format!(
             r"static inline void cont_{prefix}_drop({ty} *self) {{
